@@ -15,8 +15,34 @@ func streamC19(c *Ctx) {
 	defer dr.Close()
 	dm := Domain{IntsWithin2p53: true, NoNegTimes: false, JSONSafe: true, NoDollar: false}
 	n := c.N(40, 800)
-	for _, be := range backendsAll {
+	for bi, be := range backendsAll {
 		im := NewImpl(be, c.Scratch)
+		// collection sizes at and around powers of two (an exporter or importer that works in pages or batches
+		// has its boundary there): export, import under a new name, compare counts and contents
+		sizes := []int{255, 256, 257, 511, 512, 513, 1023, 1024, 1025}
+		if c.Quick() {
+			sizes = []int{256, 512, 1024, 513}[bi%2*2 : bi%2*2+2]
+		}
+		for _, size := range sizes {
+			lines := []J{opLine("createCollection", J{"coll": hx("big")})}
+			for start := 0; start < size; start += 128 {
+				docs := []interface{}{}
+				for j := start; j < size && j < start+128; j++ {
+					docs = append(docs, encDoc(map[string]interface{}{"_id": fixedId(j + 1), "x": int64(j % 7), "s": fmt.Sprintf("v%d", j)}))
+				}
+				lines = append(lines, opLine("insert", J{"coll": hx("big"), "docs": docs}))
+			}
+			lines = append(lines, opLine("export", J{"coll": hx("big"), "file": "fb"}), opLine("import", J{"coll": hx("bigcopy"), "file": "fb"}),
+				opLine("count", J{"q": J{"coll": hx("bigcopy")}}), opLine("findAll", J{"q": J{"coll": hx("bigcopy")}}), J{"k": "dump"})
+			o := runHistory(dr, im, lines, HistOpts{})
+			recordHistory(c, lines, &o, be)
+			c.Count(fmt.Sprintf("export-import-size:%d", size))
+			if o.Index >= 0 {
+				reportHistoryProblem(c, dr, im, lines, &o, be, HistOpts{}, "export-import-size")
+				im.Destroy()
+				return
+			}
+		}
 		for i := 0; i < n; i++ {
 			g := NewGen(c.Rng, dm)
 			h := NewHistGen(g, 1, 1)
